@@ -315,6 +315,7 @@ inductive Ev where
   | complete (k : Nat) (o : Outcome)   -- the handler of the `k`-th invoked call ends
   | pause | resume
   | lose (cls : LossClass) (site : LossSite)
+  | tick                              -- any amount of time passes (no wait of the connection is bounded)
   deriving DecidableEq, Repr
 
 /-- The receive loop, waiting for the next message, notices the stop event. -/
@@ -336,6 +337,7 @@ def stepCore (cfg : Cfg) (c : Conn) : Ev → Conn
     | none => c
     | some (call, _) =>
       if call ∈ c.inflight then complete { c with inflight := c.inflight.erase call } call o else c
+  | .tick => c
   | .pause => { c with paused := true }
   | .resume =>
     let c := { c with paused := false }
